@@ -232,3 +232,71 @@ func dupKeys(a, b []byte) []byte {
 	out = append(out, ',')
 	return append(out, b[1:]...)
 }
+
+// nullify replaces one to three scalar values of the document by null
+// (elements of arrays, member values): decoding null into a Go scalar leaves
+// it untouched, so whatever a reused buffer held there would show.
+func nullify(doc []byte, r *plan.Rng) []byte {
+	type span struct{ a, b int }
+	var vals []span
+	i := 0
+	n := len(doc)
+	for i < n {
+		c := doc[i]
+		switch {
+		case c == '"':
+			j := i + 1
+			for j < n && doc[j] != '"' {
+				if doc[j] == '\\' {
+					j++
+				}
+				j++
+			}
+			j++
+			if j > n {
+				j = n
+			}
+			k := j
+			for k < n && (doc[k] == ' ' || doc[k] == '\n' || doc[k] == '\t') {
+				k++
+			}
+			if !(k < n && doc[k] == ':') {
+				vals = append(vals, span{i, j})
+			}
+			i = j
+		case c == '-' || (c >= '0' && c <= '9'):
+			j := i + 1
+			for j < n && strings.IndexByte("0123456789+-.eE", doc[j]) >= 0 {
+				j++
+			}
+			vals = append(vals, span{i, j})
+			i = j
+		case c == 't' && i+4 <= n && string(doc[i:i+4]) == "true":
+			vals = append(vals, span{i, i + 4})
+			i += 4
+		case c == 'f' && i+5 <= n && string(doc[i:i+5]) == "false":
+			vals = append(vals, span{i, i + 5})
+			i += 5
+		default:
+			i++
+		}
+	}
+	if len(vals) == 0 {
+		return doc
+	}
+	pick := map[int]bool{}
+	for k := r.Range(1, 3); k > 0; k-- {
+		pick[r.Intn(len(vals))] = true
+	}
+	var out []byte
+	pos := 0
+	for idx, sp := range vals {
+		if !pick[idx] {
+			continue
+		}
+		out = append(out, doc[pos:sp.a]...)
+		out = append(out, "null"...)
+		pos = sp.b
+	}
+	return append(out, doc[pos:]...)
+}
